@@ -220,7 +220,7 @@ def run(ctx, res):
                 build_and_judge(res, "Paragraph", [s], "ctor", formatted=False)
     res.info["exhaustive"] = f"all strings over {{a,SPACE,TAB,LF}} up to length {maxlen}, every 2-way split"
     rng = ctx.rng("random")
-    for i in range(1200 if ctx.quick else 40000):
+    for i in range(1200 if ctx.quick else 200000):
         n = rng.randint(1, 40)
         alpha = CORE * 3 + EXTRA
         s = "".join(rng.choice(alpha) for _ in range(n))
@@ -238,7 +238,7 @@ def run(ctx, res):
     # strings assembled from tokens: space runs whose length sits on a digit boundary of the text:c counter,
     # and text that looks like markup (attribute and name-space declarations, entity look-alikes)
     rng = ctx.rng("tokens")
-    for i in range(600 if ctx.quick else 20000):
+    for i in range(600 if ctx.quick else 100000):
         toks = []
         for _ in range(rng.randint(1, 6)):
             r = rng.random()
